@@ -12,8 +12,11 @@ Decided (see DESIGN.md section 3, C01):
          operand of run-time length, followed through make_chain's return, is spread over the conversions);
   R01.c  exact set arithmetic of chain_argspec / make_chain (truth tables over symbolic atoms);
   R01.d  per-phase availability sets and pairing of function lists with provides lists;
-  R01.e  all consumers of a signature enumerate the same parameters; parameter-kind table;
-  R01.f  chain_argspec and the code generator are level-aligned.
+  R01.e  all consumers of a signature enumerate the same parameters; parameter-kind table; the signature of a bound method lacks
+         ``self`` whatever the state of its instance (the drop in get_fb is guarded by what f *is*, not by the truth value of
+         ``f.__self__``);
+  R01.f  chain_argspec and the code generator are level-aligned; make_chain hands the function list and the provides tuples on as
+         declared (order-preserving copies only).
 Declined: that every accepted configuration serves every request (needs CPython introspection of
 arbitrary callables); the undocumented cycle check.
 """
